@@ -11,9 +11,10 @@ git -C "$wt" checkout -q --detach "$(git -C /repo rev-parse HEAD)" 2>/dev/null
 git -C "$wt" checkout -q -- . && git -C "$wt" clean -fdq
 git -C "$wt" apply "$here/seeded/$seed/patch.diff" || { echo "patch does not apply"; exit 2; }
 mkdir -p $sv/evidence; ln -sfn "$here/checker" $sv/checker; cp "$here/known_findings.json" $sv/
-"$here/build.sh" || exit 2
+bin=${ONTOCHECK_BIN:-"$here/bin/ontocheck"}
+[ -n "${ONTOCHECK_BIN:-}" ] || "$here/build.sh" || exit 2
 rc=0
 for p in "$@"; do
-	"$here/bin/ontocheck" -prop "$p" -tier "${TIER:-quick}" -repo "$wt" -verif $sv | cut -c1-600 | grep -v "^  analysed" | head -${LINES_MAX:-25}
+	"$bin" -prop "$p" -tier "${TIER:-quick}" -repo "$wt" -verif $sv | cut -c1-600 | grep -v "^  analysed" | head -${LINES_MAX:-25}
 done
 git -C "$wt" checkout -q -- . && git -C "$wt" clean -fdq
